@@ -96,7 +96,7 @@ func runOldSchema(o *opts) {
 	distinct := map[string]bool{}
 	for i := 0; i < n; i++ {
 		rr := r.fork()
-		c := setupCommitted(o, rr, s, "oldschema", i, []string{"dir"}, treeOpts{maxDepth: 3, maxFan: 4, hostile: rr.chance(1, 3), allowEmptyDir: true})
+		c := setupCommitted(o, rr, s, "oldschema", i, []string{"dir"}, treeOpts{maxDepth: 3, maxFan: 4, hostile: rr.chance(1, 3), allowEmptyDir: true, keyNames: true})
 		if !c.ts[0].OK {
 			c.cleanup()
 			continue
